@@ -43,6 +43,14 @@ _T = [0.0]      # the time at which the rate equations are differentiated (set p
 
 def mp_rhs(sp, state, params):
     S, Sd = ref.stoich(sp)
+    if sp.get("rules"):
+        # the rate equations of a model with repeated assignment rules: rule-assigned species are functions of the
+        # other species and the parameters (rules applied in declaration order, then the rates)
+        state = dict(state)
+        for rl in sp["rules"]:
+            env = dict(params)
+            env.update(state)
+            state[rl["dest"]] = ref.eval_tree(rl["tree"], env, _T[0], 1.0, mp=_mp)
     rates = [mp_rate(sp, rx, state, params) for rx in sp["reactions"]]
     return [sum((S[s][j] + Sd[s][j]) * rates[j] for j in range(len(rates))) for s in sp["species"]], rates
 
@@ -163,6 +171,8 @@ def check(case):
                 return res
     if tq != 0.0:
         res.label("at_nonzero_time")
+    if sp.get("rules"):
+        res.label("rule_assigned_species_in_a_rate")
     res.label("what:" + case["what"], "method:" + method, *["type:" + t for t in sorted({rx["type"] for rx in sp["reactions"]})])
     if any(rx.get("signed") for rx in sp["reactions"]):
         res.label("rate_that_changes_sign")
@@ -206,6 +216,16 @@ def cases(draw):
         if draw(st.integers(0, 4)) == 0 and rx["p"]:
             rx["delay"] = {"type": "fixed", "r": [], "p": [rx["p"].pop()], "pd": {"delay": 1.0}}
         b.reactions.append(rx)
+    if draw(st.integers(0, 2)) == 0:
+        # a species assigned by a repeated rule (from a parameter and another species) that catalyses one more reaction:
+        # derivatives flow through the rule
+        a, c = draw(st.sampled_from(species)), draw(st.sampled_from(species))
+        pr = b.new_param(draw(gen.logfl(0.2, 5)))
+        tree = ["add", ["mul", gen.sym(pr), gen.sym(a)], gen.num(0.5)]
+        b.species.append("Rq")
+        b.rules.append({"type": "assignment", "eq": f"Rq = {ref.show(tree)}", "freq": "repeated", "tree": tree, "dest": "Rq"})
+        b.reactions.append(gen.massaction(b, [c, "Rq"], ["Rq"], k=b.value_entry(gen.logfl(0.1, 10))))
+        species = species + ["Rq"]
     sp = b.spec({s: 1.0 for s in species})
     # every numeric entry becomes a named parameter so that each one can be addressed by name
     k = 0
